@@ -188,6 +188,11 @@ def c13_dir_rename_moves_symlink(rp):
     return rp.get('kind') == 'e2e_symlink' and rp.get('after_dir_rename') is True
 
 
+def c13_get_through_new_symlink(rp):         # fixed a79246f
+    names = [n for n, _t in rp.get('listing', [])]
+    return rp.get('kind') == 'e2e_get_links' and len(names) != len(set(names))
+
+
 # ---- C11 (replay objects written by harness/props/c11.py) ------------------------------------------------
 
 def c11_clock_race(rp):                     # fixed 97cb05d
